@@ -284,6 +284,19 @@ class Poll(BasePoller):
         for fileno, event in ll:
             self._process(fileno, event)
 
+    def _isStale(self, fileno, fd):
+        """
+        True if fd no longer owns the descriptor number it was registered
+        under: it was closed without having been discarded, and the number
+        may belong to an unrelated descriptor by now.
+        """
+        if isinstance(fd, int):
+            return False
+        try:
+            return fd.fileno() != fileno
+        except (OSError, ValueError):
+            return True
+
     def _process(self, fileno, event):
         if fileno not in self._map:
             return
@@ -291,6 +304,14 @@ class Poll(BasePoller):
         fd = self._map[fileno]
         if fd == self._ctrl_recv:
             self._read_ctrl()
+            return
+
+        if self._isStale(fileno, fd):
+            # poll(2) knows numbers, not objects: whatever it reports for
+            # this number does not concern fd anymore. Drop the registration.
+            self._poller.unregister(fileno)
+            super().discard(fd)
+            del self._map[fileno]
             return
 
         if event & self._disconnected_flag and not (event & select.POLLIN):
